@@ -60,15 +60,19 @@ def affine_map(dist, n, N=1):
     return k, k_total, draw
 
 
-def quad_moments_from_gradient(grad, n, h=1.0):
-    """same as quad_moments but from the object's own gradient (used when the normalised log-density is refused)"""
+def quad_moments_from_gradient(grad0, n, h=1.0, centre=None):
+    """same as quad_moments but from the object's own gradient (used when the normalised log-density is refused); evaluated
+    around `centre` (near the mean), returned in the same (g0 at the origin, H) form"""
+    ctr = np.zeros(n) if centre is None else np.asarray(centre, dtype=float).reshape(n)
+    grad = lambda z: grad0(ctr + z)
     g0 = np.asarray(grad(np.zeros(n)), dtype=float).reshape(-1)
     H = np.zeros((n, n))
     for i in range(n):
         e = np.zeros(n)
         e[i] = h
         H[:, i] = (g0 - np.asarray(grad(e), dtype=float).reshape(-1)) / h
-    return g0, (H + H.T) / 2
+    H = (H + H.T) / 2
+    return g0 + H @ ctr, H
 
 
 def check_affine_law(dist, n, logd, rec, what, tol, intrinsic=False, log_transform=False, moments=None, reg=0.0, h=1.0):
@@ -85,7 +89,10 @@ def check_affine_law(dist, n, logd, rec, what, tol, intrinsic=False, log_transfo
         B[:, i] = tr(draw(e)).reshape(n) - a
     e = np.cos(1.0 + np.arange(k_total))
     require(close(tr(draw(e)).reshape(n), a + B @ e, 1e-8), f"{what}: sample is not an affine function of the normal draws")
-    g0, H = moments if moments is not None else quad_moments(logd, n, h=h, centre=a)
+    if callable(moments):
+        g0, H = moments(a)
+    else:
+        g0, H = moments if moments is not None else quad_moments(logd, n, h=h, centre=a)
     C = B @ B.T
     scale = max(1.0, np.abs(H).max())
     if not intrinsic:
@@ -182,7 +189,7 @@ def run_gauss(c, rec):
                 rec.count("logd_and_gradient_refused")
                 return
             rec.count("density_from_gradient")
-            moments = quad_moments_from_gradient(d.gradient, n, h=10.0 ** c.get("scale_pow", 0))
+            moments = lambda ctr: quad_moments_from_gradient(d.gradient, n, h=10.0 ** c.get("scale_pow", 0), centre=ctr)
         check_affine_law(d, n, lambda x: float(np.asarray(d.logd(x)).reshape(-1)[0]), rec, "Gaussian", tol, moments=moments,
                          h=10.0 ** c.get("scale_pow", 0))
         # the draws also have the covariance that was specified (the density's agreement with the specification is C04's
@@ -371,6 +378,8 @@ def run_resample(c, rec):
         tags.update(bc=s1["bc"], order=s1["order"], pd=s1["pd"])
     if kind == "gaussian":
         tags.update(param=s1["param"], structure=s2["structure"], structure_before=s1["structure"])
+        if c04.superlu_reorders(s1) or c04.superlu_reorders(s2):
+            tags["superlu_reorders"] = True
     if rec.classify(tags, True):
         return
     old = cuqi.config.MIN_DIM_SPARSE
